@@ -66,7 +66,7 @@ pub enum Layout {
     Random,
 }
 
-const LAYOUTS: [Layout; 5] = [Layout::Compact, Layout::Pretty2, Layout::Pretty4, Layout::PrettyTab, Layout::Random];
+pub const LAYOUTS: [Layout; 5] = [Layout::Compact, Layout::Pretty2, Layout::Pretty4, Layout::PrettyTab, Layout::Random];
 
 struct Ser<'a> {
     out: String,
@@ -452,9 +452,9 @@ fn chain_cases(tier: Tier) -> u64 {
     tier.pick(4_000, 60_000)
 }
 
-type Case = (J, usize, Vec<u8>);
+pub type Case = (J, usize, Vec<u8>);
 
-fn case_json(c: &Case) -> Value {
+pub fn case_json(c: &Case) -> Value {
     let (text, _) = serialise(&c.0, LAYOUTS[c.1], &c.2);
     json!({"value": j_to_json(&c.0), "text": text, "text_hex": crate::engine::hex(text.as_bytes())})
 }
